@@ -569,8 +569,11 @@ def run(ck):
         "(explicit hypothesis fresh_ok / fresh_run of every closed-loop theorem; LockedRand.Uint64 never returns 0, a collision has probability <= 2^-61 per draw)",
         "model assumption: Raft with ordered config change is the linear membership history of Fleet.v (a change applies iff its fence is the "
         "current version, a majority of the current members runs on live hosts and the proposer is a current member); dragonboat itself is not modelled",
-        "liveness: C01_steady_round is proved for the model's healthy_round (what makes a real round healthy is not modelled); reaching the "
-        "healed state within a bound (C01_heal_full, B = %d healthy rounds) is checked on generated runs only, not proved" % HEAL_BOUND,
+        "liveness: proved for the model's healthy_round (what makes a real round healthy is not modelled): C01_steady_round (healed fixpoint), "
+        "C01_progress_partial / C01_heal_partial (from Calm states = any crashes and restarts of NodeHosts without a membership change in progress: "
+        "rank decrease per round, healed within ttl/(nticks*step)+3 rounds, all shards, every allowed scheduler outcome), C01_no_error_round "
+        "(errNotEnoughNodeHost excluded by a spare NodeHost from any invariant state); healing from states with a membership change in progress / "
+        "stale ADD-DELETE-KILL requests (C01_heal_full, B = %d healthy rounds) is checked on generated runs only, not proved" % HEAL_BOUND,
     ]
     ck.cov["rule"] = ("evaluations = closed-loop runs (launch, 8..40 fault rounds, %d healthy rounds); distinct_nontrivial = runs with at least one "
                       "crash and one executed restore/ADD/DELETE/KILL; model re-validation on a sample of the runs" % (HEAL_BOUND + QUIET + 2))
